@@ -16,6 +16,11 @@ from selib.program import walk, show, short, strip_type
 from selib.reset import Reset, ASSIGN_OPS
 from selib.build import AnalysisBroken
 
+MUTATORS = {"insert", "emplace", "emplace_back", "push_back", "erase",
+            "clear", "assign", "resize", "swap", "pop_back", "push_front",
+            "emplace_front", "insert_or_assign", "try_emplace", "merge",
+            "append", "reset"}
+
 PARSERS = [
     ("SymEngine::Parser", "SymEngine::Tokenizer", "yy::parser"),
     ("SymEngine::SbmlParser", "SymEngine::SbmlTokenizer", "sbml::parser"),
@@ -53,6 +58,14 @@ def member_writers(prog, RS, tracked):
             elif n.get("k") in ("un", "op") and n.get("op") in ("++", "--") \
                     and n.get("a"):
                 m = RS.member(n["a"][0])
+            elif n.get("k") == "mcall" and n.get("n") in MUTATORS \
+                    and (n.get("o") or {}).get("k") == "mem":
+                # container members change through their mutators
+                m = RS.member(n["o"])
+            elif n.get("k") == "op" and n.get("op") == "[]" and n.get("a") \
+                    and n["a"][0].get("k") == "mem" and "map<" in (
+                        n["a"][0].get("t") or ""):
+                m = RS.member(n["a"][0])    # map[key] inserts
             if m:
                 out.setdefault(m, set()).add((f["qn"], isctor))
     return out
